@@ -176,6 +176,25 @@ def stopsOkG (env : Env) : Nat → G → Bool
     | .adjoin a b => stopsOkG env fuel a && stopsOkG env fuel b
     | _ => true
 
+/-- The matcher tree with every `stops` recomputed by the model of `CheckConflicts`
+(the model then covers conflict detection + matching; the serialised real `stops` are
+compared separately, flag `stops=`). -/
+def restop (env : Env) : Nat → G → G
+  | 0, g => g
+  | fuel + 1, g =>
+    match g with
+    | .choice opts stops =>
+      let opts' := opts.map (restop env fuel)
+      match firstsOf (fun g => firstF env.firstFuel env g) opts with
+      | .ok firsts => .choice opts' (stopsOf firsts)
+      | .error _ => .choice opts' stops
+    | .seq items => .seq (items.map (restop env fuel))
+    | .rep0 g => .rep0 (restop env fuel g)
+    | .rep1 g => .rep1 (restop env fuel g)
+    | .rep01 g => .rep01 (restop env fuel g)
+    | .adjoin a b => .adjoin (restop env fuel a) (restop env fuel b)
+    | g => g
+
 def b01 (b : Bool) : String := if b then "1" else "0"
 
 def handleTplm (fields : List String) : String :=
@@ -187,13 +206,14 @@ def handleTplm (fields : List String) : String :=
       let chk := checkAll env
       let head := "chk=" ++ (match chk with
         | .ok => "ok" | .recur n => "rec:" ++ hexField n | .fuel => "FUEL") ++
-        " wf=" ++ b01 env.wf
+        " wf=" ++ b01 (env.wf && (match chk with | .ok => env.stopsLen | _ => true) && toksOk toks)
       match chk with
       | .ok =>
         let doc : Bytes := match env with | (n, _) :: _ => n | [] => []
-        let c : Cx Nat := ⟨env, toks, fe.toNat!, fun name => procs.lookup name⟩
-        let fuel := matchBound env toks.length
         let sok := env.all (fun e => stopsOkG env (e.2.size + 1) e.2)
+        let env' : Env := env.map (fun e => (e.1, restop env (e.2.size + 1) e.2))
+        let c : Cx Nat := ⟨env', toks, fe.toNat!, fun name => procs.lookup name⟩
+        let fuel := matchBound env toks.length
         head ++ " stops=" ++ b01 sok ++
           " | M " ++ showTop (matchTop c fuel doc) ++
           " | P " ++ showParse (parseTop c fuel doc) ++
